@@ -270,6 +270,36 @@ theorem C10_timed_once (T : Topo) (s0 : State)
     · exact ih (fun o ho => hno o (List.mem_cons_of_mem _ ho)) e hl'
 
 
+/-- **Only the connection's own prepare counts.** If the history contains no well-formed prepare of
+    `p` sent by `c` itself (whatever other connections prepared, whatever `c` prepared under other
+    ids), `c` holds no live prepare for `p`, so by `C10_timed` its write carrying `p` is refused. -/
+theorem C10_timed_needs_own_prepare (T : Topo) (s0 : State) (hrev : List Op) (c : Conn) (p : Pid)
+    (hno : ∀ op ∈ hrev, ∀ ttl, op ≠ Op.prepare c (some ttl) (some p)) :
+    ¬ ∃ e, LivePrep true T s0 hrev c p e := by
+  rintro ⟨e, later, earlier, ttl, heq, _, _⟩
+  exact hno (Op.prepare c (some ttl) (some p)) (by rw [heq]; simp) ttl rfl
+
+/-- **prepare.** A prepare request with both keys is answered status 0 and registers the expiry
+    `now + ttl` for exactly this connection and id; with a key missing it is answered
+    INVALID_VALUE_IN_REQUEST and changes nothing; the HTTP status is 200 in both cases. -/
+theorem C10_prepare (s : State) (c : Conn) (ttl : Option Nat) (pid : Option Pid) :
+    httpOfPrepare (prepare s c ttl pid).2 = 200 ∧
+    (∀ t p, ttl = some t → pid = some p →
+      (prepare s c ttl pid).2 = OK ∧ (prepare s c ttl pid).1.prep c p = some (s.now + t) ∧
+      (∀ c' p', ¬ (c' = c ∧ p' = p) → (prepare s c ttl pid).1.prep c' p' = s.prep c' p') ∧
+      (prepare s c ttl pid).1.vals = s.vals) ∧
+    ((ttl = none ∨ pid = none) →
+      (prepare s c ttl pid).2 = INVALID ∧ (prepare s c ttl pid).1.prep = s.prep ∧
+      (prepare s c ttl pid).1.vals = s.vals) := by
+  refine ⟨rfl, ?_, ?_⟩
+  · rintro t p rfl rfl
+    refine ⟨rfl, by simp [prepare], ?_, rfl⟩
+    intro c' p' hne
+    simp [prepare, hne]
+  · rintro (rfl | rfl)
+    · cases pid <;> exact ⟨rfl, rfl, rfl⟩
+    · cases ttl <;> exact ⟨rfl, rfl, rfl⟩
+
 /-! ### the reading "service and accessory callbacks are handed the normalised value" -/
 
 /-- If the request value is already normal (the common case: an in-range value of the right type)
